@@ -188,6 +188,7 @@ TYPE_SEQS = [
     (['pair', '<', 'ndsize_t', ',', 'ndsize_t', '>'], 'pair_ndsize'),
     (['pair', '<', 'double', ',', 'double', '>'], 'pair_double'),
     (['optional', '<', 'ndsize_t', '>'], 'opt_ndsize'),
+    (['optional', '<', 'H5Group', '>'], 'opt_H5Group'),
     (['optional', '<', 'double', '>'], 'opt_double'),
     (['optional', '<', 'string', '>'], 'opt_string'),
     (['vector', '<', 'double', '>', '::', 'iterator'], 'double_iter'),
